@@ -485,8 +485,38 @@ func (v *VerifC12) NodeHandleReadIndex() (uint64, uint64, bool) {
 
 // NodeProcessReadyToRead is node.processReadyToRead(ud) of the step worker.
 func (v *VerifC12) NodeProcessReadyToRead(low, high, index, lastApplied uint64) {
-	v.n.processReadyToRead(pb.Update{LastApplied: lastApplied,
-		ReadyToReads: []pb.ReadyToRead{{Index: index, SystemCtx: pb.SystemCtx{Low: low, High: high}}}})
+	v.NodeProcessReadyToReadUpdate(low, high, index, lastApplied, false, 0)
+}
+
+// NodeProcessReadyToReadUpdate is node.processReadyToRead(ud) for an update that
+// may be a fast-apply update and may carry committed entries (up to index
+// lastCommitted) which applyRaftUpdates has only queued for the apply worker:
+// ud.LastApplied is the applied index of the state machine.
+func (v *VerifC12) NodeProcessReadyToReadUpdate(low, high, index, lastApplied uint64, fastApply bool, lastCommitted uint64) {
+	ud := pb.Update{LastApplied: lastApplied, FastApply: fastApply,
+		ReadyToReads: []pb.ReadyToRead{{Index: index, SystemCtx: pb.SystemCtx{Low: low, High: high}}}}
+	for i := lastApplied + 1; i <= lastCommitted && i <= lastApplied+4; i++ {
+		idx := i
+		if i == lastApplied+4 {
+			idx = lastCommitted
+		}
+		ud.CommittedEntries = append(ud.CommittedEntries, pb.Entry{Type: pb.ApplicationEntry, Index: idx, Term: 1})
+	}
+	v.n.processReadyToRead(ud)
+}
+
+// VerifC12FreshReadCtxs builds a brand new pendingReadIndex table (another
+// replica, or this one after a restart), sets its clock to tick and returns the
+// first n ctxs it generates.
+func VerifC12FreshReadCtxs(tick uint64, n int) [][2]uint64 {
+	p := newPendingReadIndex(&sync.Pool{}, newReadIndexQueue(4))
+	p.tick(tick)
+	out := make([][2]uint64, 0, n)
+	for i := 0; i < n; i++ {
+		c := p.nextCtx()
+		out = append(out, [2]uint64{c.Low, c.High})
+	}
+	return out
 }
 
 // NodeApplyUpdate is node.ApplyUpdate, what the apply path calls for every entry.
